@@ -61,7 +61,12 @@ def _install_fake_datetime():
 
         @classmethod
         def utcnow(cls):
-            return cls.now()
+            # the sandbox's local zone is UTC+3: code that confuses utcnow() with now() writes a visibly wrong time
+            n = cls.now()
+            if cls._vt_now is None:
+                return real.utcnow()
+            m = n - _dt.timedelta(hours=3)
+            return cls(m.year, m.month, m.day, m.hour, m.minute, m.second, m.microsecond)
     datetime.__qualname__ = 'datetime'
     datetime.__module__ = 'datetime'
     _dt.datetime = datetime
